@@ -431,9 +431,34 @@ def random_structure(rng, max_atoms=300, family=None, allow_degenerate=True, all
     if rng.random() < 0.5 and len(a) > 1:
         a = a[[int(i) for i in rng.permutation(len(a))]]
         meta["order"] = "permuted"
+    meta["decorations"] = decorate(a, rng) if rng.random() < 0.25 else []
     meta["pbc"] = "".join("TF"[not b] for b in pbc)
     meta["natoms"] = len(a)
     return a, meta
+
+
+def decorate(atoms, rng):
+    """Attaches what real ASE objects often carry and what must not influence any analysis: a FixAtoms constraint on a
+    random subset (e.g. the frozen bottom layers of a slab model), tags, momenta, initial charges / magnetic moments
+    and info entries.  In place; returns the list of decorations."""
+    from ase.constraints import FixAtoms
+    n = len(atoms)
+    done = []
+    if n and rng.random() < 0.7:
+        k = max(1, int(n * rng.uniform(0.1, 0.6)))
+        atoms.set_constraint(FixAtoms(indices=[int(i) for i in rng.choice(n, size=min(k, n), replace=False)]))
+        done.append("FixAtoms")
+    if rng.random() < 0.5:
+        atoms.set_tags([int(t) for t in rng.integers(0, 4, size=n)]); done.append("tags")
+    if rng.random() < 0.3:
+        atoms.set_momenta(rng.normal(size=(n, 3)), apply_constraint=False); done.append("momenta")
+    if rng.random() < 0.3:
+        atoms.set_initial_charges(rng.normal(size=n)); done.append("initial_charges")
+    if rng.random() < 0.3:
+        atoms.set_initial_magnetic_moments(rng.normal(size=n)); done.append("initial_magmoms")
+    if rng.random() < 0.5:
+        atoms.info["name"] = "decorated"; atoms.info["energy"] = -1.5; done.append("info")
+    return done
 
 
 def describe(atoms):
@@ -441,7 +466,9 @@ def describe(atoms):
     return {"numbers": atoms.get_atomic_numbers().tolist(),
             "positions_hex": [float(x).hex() for x in atoms.get_positions().ravel()],
             "cell_hex": [float(x).hex() for x in atoms.get_cell().array.ravel()],
-            "pbc": [bool(x) for x in atoms.get_pbc()]}
+            "pbc": [bool(x) for x in atoms.get_pbc()],
+            "decorations": {"constraints": repr(atoms.constraints)[:300], "extra_arrays": sorted(k for k in atoms.arrays if k not in ("numbers", "positions")),
+                            "info_keys": sorted(map(str, atoms.info))}}
 
 
 def from_description(d):
